@@ -82,6 +82,15 @@ def input_classes(src: str) -> set:
     return out
 
 
+def n_subscripts(src: str) -> int:
+    """subscripts applied to something other than a lambda parameter (tuple access t[0] is not indexing)"""
+    try:
+        tree = ast.parse(src, mode="eval")
+    except SyntaxError:
+        return 0
+    return sum(1 for n in ast.walk(tree) if isinstance(n, ast.Subscript) and not isinstance(n.value, ast.Name))
+
+
 def n_ops(src: str) -> int:
     return len(re.findall(r"\.\w+\(", src)) + len(re.findall(r"\b(and|or|if)\b", src))
 
@@ -224,6 +233,7 @@ def check(tier: str, seed: int, t0: float, build: core.BuildStatus) -> int:
     distinct = set()
     value_only = 0
     not_compilable: List[Dict[str, Any]] = []
+    schema_only: List[Any] = []
     unsupported = 0
     rejected: List[Dict[str, Any]] = []
     samples = []
@@ -271,11 +281,27 @@ def check(tier: str, seed: int, t0: float, build: core.BuildStatus) -> int:
                  "emitted_code": r.qlines},
             ))
         if bad_verdicts and not real:
+            schema_only.append((backend, src, bad_verdicts, r.qlines))
+        want_at = n_subscripts(src)
+        if r.at_calls < want_at:
+            # indexing not lowered to the bounds-checked at(): look for an event on which the query is undefined
+            # because of the index (the emitted access then has no check that could fail loudly)
+            witness = None
+            for ev in evs:
+                try:
+                    ref = c04gen.reference_event(src, ev, uni)
+                except qgen.RefUnsupported:
+                    break
+                if ref == ["fault", "index"]:
+                    witness = ev
+                    break
             oc.violations.append(core.Violation(
-                "c04:schema-instance-" + bad_verdicts[0][0],
-                f"{backend}: emitted code around {bad_verdicts[0][1]} is not an instance of the lowering schema the theorems are about  [{src}]",
-                {"backend": backend, "query": src, "rejected": bad_verdicts, "emitted_code": r.qlines, "broken": "recogniser " + bad_verdicts[0][0]},
-                no_failing_input=True,
+                "c04:index-not-bounds-checked",
+                f"{backend}: {want_at} subscript(s) in the query but {r.at_calls} at() call(s) in the emitted code  [{src}]",
+                {"backend": backend, "query": src, "event": witness, "query_outcome": ["fault", "index"] if witness else None,
+                 "job_outcome": "the emitted access is not the bounds-checked at(): nothing fails loudly past the end (undefined behaviour in C++)",
+                 "emitted_code": r.qlines, "broken": "at_faults_iff_out_of_range is about sub_lower = .at(i)"},
+                no_failing_input=witness is None,
             ))
 
     for rd in range(rounds):
@@ -298,6 +324,17 @@ def check(tier: str, seed: int, t0: float, build: core.BuildStatus) -> int:
             handle(backend, uni, src, q.uses, set(q.feat) | {"generated"}, "generated")
     model.close()
 
+    known_keys = {k["key"] for k in core.known_findings() if k.get("property") == PID and k.get("status") == "known"}
+    concrete = [v for v in oc.violations if not v.no_failing_input and v.key not in known_keys]
+    if schema_only and not concrete:
+        # correspondence break for which the search found no failing input: exactly one such violation
+        backend, src, bad, lines = schema_only[0]
+        oc.violations.append(core.Violation(
+            "c04:schema-instance-" + bad[0][0],
+            f"{backend}: emitted code around {bad[0][1]} is not an instance of the lowering schema the theorems are about ({len(schema_only)} such case(s))  [{src}]",
+            {"backend": backend, "query": src, "rejected": bad, "emitted_code": lines, "broken": "recogniser " + bad[0][0]},
+            no_failing_input=True,
+        ))
     if ps.broken:
         oc.violations.append(core.Violation("c04:theorem-broken", ps.broken, {"broken": ps.broken}, no_failing_input=not any(not v.no_failing_input for v in oc.violations)))
     oc.distinct_nontrivial = len(distinct)
